@@ -21,11 +21,14 @@
 EXTENDS Integers, Sequences, FiniteSets, SequencesExt, TLC
 
 CONSTANTS NLines,      \* job = commands 1..NLines (all executable)
-          MaxCorrupt
+          MaxCorrupt,
+          AdvanceAfterSend   \* TRUE: the code before fix F21 -- a retransmission went out first and resendfrom was incremented
+                             \* afterwards, so a reply handled in between (the reader thread runs during the write) was overwritten
 
 VARIABLES
   \* host (names as in printcore)
   printing, clear, resendfrom, lineno, queueindex, sentlines, started,
+  pendinc,             \* the print thread is between the write of a retransmission and `resendfrom += 1` (AdvanceAfterSend only)
   \* link
   wire,      \* host -> firmware: sequence of [n, cmd, bad]; cmd 0 = M110
   replies,   \* firmware -> host: sequence of [k |-> "ok"] / [k |-> "resend", n |-> i]
@@ -33,7 +36,7 @@ VARIABLES
   expected, accepted,
   \* bookkeeping (history)
   ncorrupt, ntx, nokc, piped, m110bad
-vars == <<printing, clear, resendfrom, lineno, queueindex, sentlines, started, wire, replies,
+vars == <<printing, clear, resendfrom, lineno, queueindex, sentlines, started, pendinc, wire, replies,
           expected, accepted, ncorrupt, ntx, nokc, piped, m110bad>>
 
 Job == [i \in 1..NLines |-> i]
@@ -55,14 +58,15 @@ StartPrint ==
   /\ started' = TRUE /\ printing' = TRUE /\ clear' = FALSE /\ resendfrom' = -1
   /\ queueindex' = 0 /\ lineno' = 0
   /\ Tx(-1, M110)
-  /\ UNCHANGED <<sentlines, replies, expected, accepted, nokc>>
+  /\ UNCHANGED <<sentlines, pendinc, replies, expected, accepted, nokc>>
 
 \* one pass of _sendnext() once `clear` was seen
 SendNext ==
-  /\ started /\ printing /\ clear
+  /\ started /\ printing /\ clear /\ ~pendinc
   /\ IF resendfrom < lineno /\ resendfrom > -1
        THEN /\ Tx(resendfrom, sentlines[resendfrom])
-            /\ resendfrom' = resendfrom + 1
+            /\ IF AdvanceAfterSend THEN resendfrom' = resendfrom /\ pendinc' = TRUE
+                                    ELSE resendfrom' = resendfrom + 1 /\ pendinc' = FALSE
             /\ clear' = FALSE
             /\ UNCHANGED <<printing, lineno, queueindex, sentlines>>
      ELSE IF queueindex < NLines
@@ -71,13 +75,20 @@ SendNext ==
             /\ lineno' = lineno + 1 /\ queueindex' = queueindex + 1
             /\ resendfrom' = -1
             /\ clear' = FALSE
-            /\ UNCHANGED printing
+            /\ UNCHANGED <<printing, pendinc>>
        ELSE \* end of job: printing off, counters reset, closing M110
             /\ printing' = FALSE /\ clear' = TRUE /\ queueindex' = 0 /\ lineno' = 0
             /\ resendfrom' = -1
             /\ Tx(-1, M110)
-            /\ UNCHANGED sentlines
+            /\ UNCHANGED <<sentlines, pendinc>>
   /\ UNCHANGED <<started, replies, expected, accepted, nokc>>
+
+\* the second half of the retransmission step of the old code: `self.resendfrom += 1` after _send() returned
+ResendInc ==
+  /\ pendinc
+  /\ resendfrom' = resendfrom + 1 /\ pendinc' = FALSE
+  /\ UNCHANGED <<printing, clear, lineno, queueindex, sentlines, started, wire, replies,
+                 expected, accepted, ncorrupt, ntx, nokc, piped, m110bad>>
 
 \* firmware takes the next transmission off the wire
 Firmware ==
@@ -91,7 +102,7 @@ Firmware ==
                /\ replies' = Append(replies, [k |-> "ok", n |-> 0])
         ELSE expected' = expected /\ accepted' = accepted
              /\ replies' = replies \o <<[k |-> "resend", n |-> expected], [k |-> "ok", n |-> 0]>>
-  /\ UNCHANGED <<printing, clear, resendfrom, lineno, queueindex, sentlines, started, ncorrupt, ntx, nokc, piped, m110bad>>
+  /\ UNCHANGED <<printing, clear, resendfrom, lineno, queueindex, sentlines, started, pendinc, ncorrupt, ntx, nokc, piped, m110bad>>
 
 \* _listen(): one line from the device
 Reader ==
@@ -101,15 +112,15 @@ Reader ==
      /\ clear' = TRUE                                   \* ok sets clear; ResendLineAlsoClears
      /\ resendfrom' = IF r.k = "resend" THEN r.n ELSE resendfrom
      /\ nokc' = IF r.k = "ok" THEN nokc + 1 ELSE nokc
-  /\ UNCHANGED <<printing, lineno, queueindex, sentlines, started, wire, expected, accepted, ncorrupt, ntx, piped, m110bad>>
+  /\ UNCHANGED <<printing, lineno, queueindex, sentlines, started, pendinc, wire, expected, accepted, ncorrupt, ntx, piped, m110bad>>
 
 Init ==
   /\ printing = FALSE /\ clear = TRUE /\ resendfrom = -1 /\ lineno = 0 /\ queueindex = 0
-  /\ sentlines = [i \in 0..(NLines - 1) |-> 0] /\ started = FALSE
+  /\ sentlines = [i \in 0..(NLines - 1) |-> 0] /\ started = FALSE /\ pendinc = FALSE
   /\ wire = <<>> /\ replies = <<>> /\ expected = 1 /\ accepted = <<>>
   /\ ncorrupt = 0 /\ ntx = 0 /\ nokc = 0 /\ piped = FALSE /\ m110bad = FALSE
 
-Next == StartPrint \/ SendNext \/ Firmware \/ Reader
+Next == StartPrint \/ SendNext \/ ResendInc \/ Firmware \/ Reader
 Spec == Init /\ [][Next]_vars /\ WF_vars(Next)
 
 -----------------------------------------------------------------------------
